@@ -197,6 +197,9 @@ func gopenRun(env *runner.Env) (res *runner.Result) {
 		defer func() {
 			if r := recover(); r != nil {
 				if m := fmt.Sprint(r); strings.Contains(m, "deadlock") && strings.Contains(m, "bubble") {
+					if res.Steps == 0 {
+						panic("the bubble ended before the simulation ran: " + m)
+					}
 					return
 				}
 				panic(r)
